@@ -27,7 +27,14 @@ LEVEL = "model_checking"
 
 # ---------------------------------------------------------------- row shapes: everything the oracle knows, as plain ints
 #   name: (width, kind)
-SHAPES = {"u0": 0, "u1": 1, "u2": 2, "u4": 4, "s2": 2, "arr": 4, "struct": 3}
+SHAPES = {"u0": 0, "u1": 1, "u2": 2, "u4": 4, "s2": 2, "arr": 4, "struct": 3,
+          # row shapes whose default constant (shape.const(None)) is NOT all-zero bits; the "0" variants are declared with init=[]
+          "sdef": 3, "sdef0": 3, "cust": 2, "cust0": 2}
+# bit pattern of a row that is not explicitly initialised (docs, MemoryData.Init: such rows "default to shape.const(None)" for a
+# shape-castable row shape, to 0 otherwise), computed by hand from the declared field defaults below
+DEFAULT_ROW = {"sdef": 0b101, "sdef0": 0b101,      # class S(data.Struct): a: unsigned(1) = 1; b: signed(2) = -2  -> a | (b & 3) << 1
+               "cust": 2, "cust0": 2}              # custom shape-castable over unsigned(2) whose const(None) is 2
+NONZERO_DEFAULT = tuple(DEFAULT_ROW)
 # declared initial contents in the *native* form handed to Memory(init=...); shorter than the depth -> default rows
 INIT = {
     "u0": [0],
@@ -37,7 +44,18 @@ INIT = {
     "s2": [-2, 1, -1],
     "arr": [[1, 2], [3, 0]],                                   # ArrayLayout(unsigned(2), 2)
     "struct": [{"a": 1, "b": -2}, {"a": 0, "b": 1}],          # StructLayout({"a": 1, "b": signed(2)})
+    "sdef": [{"a": 0, "b": 1}], "sdef0": [],                  # data.Struct class with non-zero field defaults
+    "cust": [1], "cust0": [],                                 # custom ShapeCastable with a non-zero default
 }
+
+
+def kind_of(shape):
+    """layout family of a row shape name: how native values map to bits"""
+    if shape.startswith("sdef"):
+        return "struct"
+    if shape.startswith("cust"):
+        return "u2"
+    return shape
 
 
 def _mask(w):
@@ -70,7 +88,8 @@ def granule_masks(shape, gran):
 def raw_of(shape, native):
     """bit pattern of a row given in native form"""
     if native is None:
-        return 0
+        return DEFAULT_ROW.get(shape, 0)
+    shape = kind_of(shape)
     if shape == "arr":
         return (native[0] & 3) | ((native[1] & 3) << 2)
     if shape == "struct":
@@ -79,6 +98,7 @@ def raw_of(shape, native):
 
 
 def native_of(shape, raw):
+    shape = kind_of(shape)
     if shape == "arr":
         return [raw & 3, (raw >> 2) & 3]
     if shape == "struct":
@@ -92,6 +112,27 @@ def native_of(shape, raw):
 def mk_shape(shape):
     from amaranth.hdl import unsigned, signed
     from amaranth.lib import data
+    if shape.startswith("sdef"):
+        class S(data.Struct):
+            a: unsigned(1) = 1
+            b: signed(2) = -2
+        return S
+    if shape.startswith("cust"):
+        from amaranth.hdl import ShapeCastable, Const
+
+        class Cust(ShapeCastable):
+            def as_shape(self):
+                return unsigned(2)
+
+            def const(self, init):
+                return Const(2 if init is None else init, 2)
+
+            def __call__(self, value):
+                return value
+
+            def from_bits(self, bits):
+                return bits
+        return Cust()
     if shape == "arr":
         return data.ArrayLayout(unsigned(2), 2)
     if shape == "struct":
@@ -99,6 +140,11 @@ def mk_shape(shape):
     if shape == "s2":
         return signed(2)
     return unsigned(SHAPES[shape])
+
+
+def declared_rows(shape, depth):
+    """declared initial contents as bit patterns: the explicit elements, then the shape's default constant"""
+    return tuple(raw_of(shape, INIT[shape][i] if i < len(INIT[shape]) else None) for i in range(depth))
 
 
 def addr_width(depth):
@@ -137,7 +183,7 @@ class MemSpec:
         self.wmasks = [granule_masks(self.shape, g) for _d, g in self.wports]
         self.sync_idx = [j for j, (dm, _t) in enumerate(self.rports) if dm >= 0]     # read port j -> register slot
         self.slot = {j: s for s, j in enumerate(self.sync_idx)}
-        self.init_rows = tuple(raw_of(self.shape, INIT[self.shape][i]) if i < len(INIT[self.shape]) else 0 for i in range(self.depth))
+        self.init_rows = declared_rows(self.shape, self.depth)
         self.excluded = 0
         self.actions = self._actions()
         self._cache = {}
@@ -309,9 +355,9 @@ class MemSpec:
         rows = []
         for i in range(self.depth):
             v = ctx.get(self.md[i])
-            if self.shape in ("arr", "struct"):
+            if kind_of(self.shape) in ("arr", "struct"):
                 raw = v.as_bits()
-                if self.shape == "struct":
+                if kind_of(self.shape) == "struct":
                     typed_ok = (v.a, v.b) == (native_of("struct", raw)["a"], native_of("struct", raw)["b"])
                 else:
                     typed_ok = [v[0], v[1]] == native_of("arr", raw)
@@ -553,6 +599,8 @@ def grid(budget, depths=range(0, 5), max_ports=2, max_total=3, rst_modes=(0, 1),
     for shape in SHAPES:
         grans = gran_options(shape)
         for depth in depths:
+            if shape in NONZERO_DEFAULT and depth < 2:
+                continue                 # these exist for the rows that are not explicitly initialised
             degenerate = SHAPES[shape] == 0 or depth == 0
             for doms in DOMSETS:
                 nd = len(doms)
@@ -615,8 +663,117 @@ def run_config(task):
     return out
 
 
+def init_check(task):
+    """declared initial contents (explicit elements, then the shape's default constant) at power-on AND after Simulator.reset(),
+    observed through mem.data[i], an asynchronous and a synchronous read port, and in the emitted RTLIL ($meminit_v2 + comb read).
+    Between the two observations every row is overwritten (even rows by the testbench, odd rows through a write port)."""
+    shape, depth = task
+    from amaranth.hdl import Module, ClockDomain, Value
+    from amaranth.lib.memory import Memory
+    from amaranth.sim import Simulator
+    warnings.simplefilter("ignore")
+    out = {"shape": shape, "depth": depth, "errors": [], "checked": 0, "nonzero_default_rows": 0, "after_reset": 0, "overwritten": 0}
+    want = declared_rows(shape, depth)
+    out["nonzero_default_rows"] = sum(1 for i in range(depth) if i >= len(INIT[shape]) and want[i] != 0)
+    w = SHAPES[shape]
+    seen = set()
+
+    def err(kind, text):
+        if kind not in seen:
+            seen.add(kind)
+            out["errors"].append({"kind": kind, "text": text})
+    try:
+        m = Module()
+        cd = ClockDomain("a")
+        m.domains += cd
+        mem = Memory(shape=mk_shape(shape), depth=depth, init=INIT[shape][:depth])
+        m.submodules.mem = mem
+        wp = mem.write_port(domain="a")
+        rc = mem.read_port(domain="comb")
+        rs = mem.read_port(domain="a")
+        named = {"w0_addr": wp.addr, "w0_data": wp.data, "w0_en": wp.en, "r0_addr": rc.addr, "r0_data": rc.data,
+                 "r1_addr": rs.addr, "r1_en": rs.en, "r1_data": rs.data}
+        for n, sg in named.items():
+            Value.cast(sg).name = n
+        frag = elaborate(m)
+        md = mem.data
+        phase = [0]
+
+        def raw_row(v):
+            return v.as_bits() if kind_of(shape) in ("arr", "struct") else v & _mask(w)
+
+        async def tb(ctx):
+            tag = ("power-on", "after-reset")[phase[0]]
+            for i in range(depth):
+                got = raw_row(ctx.get(md[i]))
+                out["checked"] += 1
+                if got != want[i]:
+                    err(f"init:tb-row:{tag}", f"{tag}: ctx.get(mem.data[{i}]) holds bits {got}, declared initial contents {want} "
+                        f"(init={INIT[shape][:depth]!r}, default row {DEFAULT_ROW.get(shape, 0)})")
+                ctx.set(rc.addr, i)
+                got = ctx.get(Value.cast(rc.data)) & _mask(w)
+                if got != want[i]:
+                    err(f"init:comb-read:{tag}", f"{tag}: asynchronous read of row {i} gives {got}, declared {want[i]}")
+                ctx.set(rs.addr, i)
+                ctx.set(rs.en, 1)
+                ctx.set(cd.clk, 1)
+                ctx.set(cd.clk, 0)
+                got = ctx.get(Value.cast(rs.data)) & _mask(w)
+                if got != want[i]:
+                    err(f"init:sync-read:{tag}", f"{tag}: synchronous read of row {i} gives {got}, declared {want[i]}")
+            if phase[0] == 1:
+                out["after_reset"] += depth
+                return
+            for i in range(depth):
+                new = want[i] ^ _mask(w)
+                if i % 2 == 0:
+                    ctx.set(md[i], native_of(shape, new))
+                else:
+                    ctx.set(wp.addr, i)
+                    ctx.set(Value.cast(wp.data), new)
+                    ctx.set(wp.en, 1)
+                    ctx.set(rs.en, 0)
+                    ctx.set(cd.clk, 1)
+                    ctx.set(cd.clk, 0)
+                    ctx.set(wp.en, 0)
+                if w and raw_row(ctx.get(md[i])) == new:
+                    out["overwritten"] += 1
+        sim = Simulator(frag)
+        sim.add_testbench(tb)
+        sim.run()
+        phase[0] = 1
+        sim.reset()
+        sim.run()
+        # RTLIL leg
+        from amaranth.back import rtlil
+        from ..rtlil.parse import parse
+        from ..rtlil.interp import Interp
+        ports = [Value.cast(sg) for sg in named.values() if len(Value.cast(sg))] + [cd.clk, cd.rst]
+        text = rtlil.convert(frag, ports=ports, emit_src=False)
+        text = re.sub(r"(\\[A-Za-z0-9_$.]+)\[(\d+)\]", r"\1__\2", text)
+        mods, _probs = parse(text)
+        it = Interp(mods)
+        mems = it.find_mem("mem")
+        if w and depth:
+            if len(mems) != 1:
+                err("init:rtlil:no-memory", "emitted RTLIL has no memory named mem")
+            else:
+                out["checked"] += depth
+                if tuple(mems[0]) != want:
+                    err("init:rtlil:meminit", f"RTLIL $meminit_v2 rows {tuple(mems[0])}, declared initial contents {want}")
+                for i in range(depth):
+                    if len(rc.addr):
+                        it.set({"r0_addr": i})
+                    if it.get("r0_data") != want[i]:
+                        err("init:rtlil:comb-read", f"RTLIL asynchronous read of row {i} gives {it.get('r0_data')}, declared {want[i]}")
+    except Exception as e:
+        import traceback
+        err(f"init:crash:{type(e).__name__}", f"{type(e).__name__}: {e} :: " + traceback.format_exc()[-500:])
+    return out
+
+
 def run_batch(tasks):
-    return [run_config(t) for t in tasks]
+    return [init_check(t[1]) if t[0] == "init" else run_config(t) for t in tasks]
 
 
 NEED = ("write", "write-partial", "write-beyond-depth", "write-disabled", "read-capture", "read-hold", "read-beyond-depth",
@@ -653,12 +810,23 @@ def run(rep):
     cfgs.sort(key=lambda c: -c[1])
     replay_n = rep.pick(4, 12)
     tasks = [(c, replay_n) for c, _cost in cfgs]
+    tasks += [("init", (shape, depth)) for shape in SHAPES for depth in (range(1, 5) if rep.quick else range(1, 7))]
     # many small graphs: deal them (largest first) into a few batches per worker to keep the pool's traffic low
     nb = max(1, min(len(tasks), rep.procs * 4))
     batches = rotate([tasks[i::nb] for i in range(nb)], rep.seed)
     allflags = set()
     shapes, depths = set(), set()
     for r in (r for batch in pmap(run_batch, batches, rep.procs) for r in batch):
+        if "checked" in r:
+            rep.add("init_checks", 1)
+            rep.add("init_rows_compared", r["checked"])
+            rep.add("init_nonzero_default_rows", r["nonzero_default_rows"])
+            rep.add("init_rows_compared_after_reset", r["after_reset"])
+            rep.add("init_rows_overwritten_before_reset", r["overwritten"])
+            for e in r["errors"]:
+                rep.violation(f"mem-init({r['shape']}x{r['depth']}):{e['kind']}", f"memory of row shape {r['shape']} depth {r['depth']}: {e['text']}",
+                              {"kind": "init-check", "shape": r["shape"], "depth": r["depth"], "want": e["kind"]})
+            continue
         rep.add("states", r["states"])
         rep.add("transitions", r["transitions"])
         rep.add("traces_validated_against_impl", r["validated"])
@@ -696,11 +864,18 @@ def run(rep):
     for need in NEED:
         rep.require(need in allflags, f"flag {need} never observed")
     rep.require(rep.cov.get("traces_validated_against_impl", 0) > 0, "no BFS path was replayed from reset")
+    rep.require(rep.cov.get("init_nonzero_default_rows", 0) > 0, "no row defaulting to a non-zero shape constant was checked")
+    rep.require(rep.cov.get("init_rows_compared_after_reset", 0) > 0 and rep.cov.get("init_rows_overwritten_before_reset", 0) > 0,
+                "initial contents were never re-checked after overwriting the rows and Simulator.reset()")
+    rep.require(any(sh in shapes for sh in NONZERO_DEFAULT), "no explored configuration has a row shape with a non-zero default constant")
     rep.assume("vf/rtlil/interp.py defines the RTLIL memory cell semantics ($memrd_v2 holds when EN=0, SRST/ARST tied to 0, INIT_VALUE x)")
     rep.assume("state injection through ctx.set(mem.data[i]) / ctx.set(read data) is validated by replaying shortest paths from reset")
 
 
 def replay(payload):
+    if payload.get("kind") == "init-check":
+        r = init_check((payload["shape"], payload["depth"]))
+        return [f"{e['kind']}: {e['text']}" for e in r["errors"] if payload.get("want") in (None, e["kind"])]
     spec = MemSpec(_tup(payload["cfg"]))
     acts = [_tup(a) for a in payload["path"]]
     if payload.get("kind", "").startswith("crash:"):
